@@ -173,8 +173,11 @@ impl Watcher {
             .authenticate_user(&appointment.to_vec(), &user_signature)
             .map_err(|_| AddAppointmentFailure::AuthenticationFailure)?;
 
-        let (has_subscription_expired, expiry) =
-            self.gatekeeper.has_subscription_expired(user_id).unwrap();
+        // The user may have been deleted (subscription outdated) since it was authenticated
+        let (has_subscription_expired, expiry) = self
+            .gatekeeper
+            .has_subscription_expired(user_id)
+            .map_err(|_| AddAppointmentFailure::AuthenticationFailure)?;
 
         if has_subscription_expired {
             return Err(AddAppointmentFailure::SubscriptionExpired(expiry));
@@ -245,7 +248,11 @@ impl Watcher {
             dbm.update_appointment(uuid, appointment).unwrap();
             StoredAppointment::Update
         } else {
-            dbm.store_appointment(uuid, appointment).unwrap();
+            // The only way this can fail is the owner having been deleted (subscription outdated) after the slots were
+            // taken, in which case there is nobody to store the appointment for anymore.
+            if let Err(e) = dbm.store_appointment(uuid, appointment) {
+                log::warn!("Appointment {uuid} could not be stored ({e:?})");
+            }
             StoredAppointment::New
         }
     }
@@ -325,8 +332,11 @@ impl Watcher {
             .authenticate_user(message.as_bytes(), user_signature)
             .map_err(|_| GetAppointmentFailure::AuthenticationFailure)?;
 
-        let (has_subscription_expired, expiry) =
-            self.gatekeeper.has_subscription_expired(user_id).unwrap();
+        // The user may have been deleted (subscription outdated) since it was authenticated
+        let (has_subscription_expired, expiry) = self
+            .gatekeeper
+            .has_subscription_expired(user_id)
+            .map_err(|_| GetAppointmentFailure::AuthenticationFailure)?;
 
         if has_subscription_expired {
             return Err(GetAppointmentFailure::SubscriptionExpired(expiry));
@@ -473,15 +483,19 @@ impl Watcher {
             .authenticate_user(message.as_bytes(), signature)
             .map_err(|_| GetSubscriptionInfoFailure::AuthenticationFailure)?;
 
-        let (has_subscription_expired, expiry) =
-            self.gatekeeper.has_subscription_expired(user_id).unwrap();
+        // The user may have been deleted (subscription outdated) since it was authenticated
+        let (has_subscription_expired, expiry) = self
+            .gatekeeper
+            .has_subscription_expired(user_id)
+            .map_err(|_| GetSubscriptionInfoFailure::AuthenticationFailure)?;
 
         if has_subscription_expired {
             return Err(GetSubscriptionInfoFailure::SubscriptionExpired(expiry));
         }
 
-        let (subscription_info, locators) = self.gatekeeper.get_user_info(user_id).unwrap();
-        Ok((subscription_info, locators))
+        self.gatekeeper
+            .get_user_info(user_id)
+            .ok_or(GetSubscriptionInfoFailure::AuthenticationFailure)
     }
 }
 
